@@ -58,6 +58,8 @@ struct FnSpec {
     clauses: Vec<Clause>, // requires/ensures on fn
     loops: BTreeMap<usize, Vec<Clause>>,
     closure_heads: BTreeMap<usize, String>,
+    /// closures whose clauses are dropped (reported undecided) instead of stubbing the whole function when the closure is gone
+    closure_optional: Vec<usize>,
     closures: BTreeMap<usize, Vec<Clause>>,
     proofs: Vec<(String, Clause)>, // anchor, clause (text is the block)
     nested: BTreeMap<String, Vec<Clause>>, // contracts of nested fn items
@@ -969,9 +971,18 @@ fn gen_fn(ctx: &mut Ctx, fs_: &FnSpec) -> R<()> {
         v.edits.push(Edit { start: bo, end: bo, text: s, rule: "E2".into(), seq, marks });
     }
     // closures (E8)
+    let mut skipped_clauses: Vec<Clause> = vec![];
     for (k, head) in &fs_.closure_heads {
         if v.closures.get(k - 1).is_none() && fs_.closures.get(k).map(|c| c.is_empty()).unwrap_or(true) {
             // a typed head only (no clauses hang on it) for a closure that is no longer there: nothing to rewrite
+            continue;
+        }
+        if v.closures.get(k - 1).is_none() && fs_.closure_optional.contains(k) {
+            // `closure k optional`: the closure is gone on this tree (e.g. `.map(|..| ..).transpose()` rewritten as a `match`); the
+            // function is still verified against its own postconditions, the closure's clauses are listed as UNDECIDED
+            for c in fs_.closures.get(k).map(|v| v.as_slice()).unwrap_or(&[]) {
+                skipped_clauses.push(Clause { place: format!("closure {k}"), ..c.clone() });
+            }
             continue;
         }
         let (o1, bs, be, head_end, names, is_block) = v.closures.get(k - 1).cloned().ok_or(Fail(format!("anchor lost: {} has no closure #{k}", fs_.path)))?;
@@ -1005,15 +1016,28 @@ fn gen_fn(ctx: &mut Ctx, fs_: &FnSpec) -> R<()> {
                 .collect()
         };
         let src_names: Vec<String> = names.iter().map(|n| if n == "_" { "_e".to_string() } else { n.clone() }).collect();
+        // a RENAMED closure parameter (same arity): the sidecar's names for the parameters are replaced, positionally, by the
+        // source's in the typed head and in the closure's clauses - unless a new name already means something else there
+        let mut cl_ren: Vec<(String, String)> = vec![];
         if head_names != src_names {
-            return fail(format!("anchor lost: closure #{k} of {} has parameters {:?}, contract has {:?}", fs_.path, src_names, head_names));
+            let texts: Vec<&str> = std::iter::once(head.as_str()).chain(fs_.closures.get(k).map(|v| v.as_slice()).unwrap_or(&[]).iter().map(|c| c.text.as_str())).collect();
+            let nocomment = |t: &str| t.lines().map(|l| l.split("//").next().unwrap_or("")).collect::<Vec<_>>().join("\n");
+            let clash = |n: &str| texts.iter().any(|t| { let t = nocomment(t); subst_idents(&t, &[(n.to_string(), "\u{1}".to_string())]) != t });
+            if head_names.len() != src_names.len() || src_names.iter().zip(head_names.iter()).any(|(sn, hn)| sn != hn && (clash(sn) || sn == "?")) {
+                return fail(format!("anchor lost: closure #{k} of {} has parameters {:?}, contract has {:?}", fs_.path, src_names, head_names));
+            }
+            for (sn, hn) in src_names.iter().zip(head_names.iter()) {
+                if sn != hn {
+                    cl_ren.push((hn.clone(), sn.clone()));
+                }
+            }
         }
         let mut marks = vec![];
-        let mut s = fix(head).trim().to_string();
+        let mut s = subst_idents(fix(head).trim(), &cl_ren);
         let base_idx = all_clauses.len();
         for c in fs_.closures.get(k).map(|v| v.as_slice()).unwrap_or(&[]) {
             let mut c2 = c.clone();
-            c2.text = fix_at(&c.text, o1);
+            c2.text = subst_idents(&fix_at(&c.text, o1), &cl_ren);
             c2.place = format!("closure {k}");
             all_clauses.push(c2);
         }
@@ -1226,6 +1250,9 @@ fn gen_fn(ctx: &mut Ctx, fs_: &FnSpec) -> R<()> {
             None => (0, 0),
         };
         cj.push(json!({"id": c.id, "tags": c.tags, "kind": c.kind, "place": c.place, "gen": [gs, ge], "text": c.text.trim()}));
+    }
+    for c in &skipped_clauses {
+        cj.push(json!({"id": c.id, "tags": c.tags, "kind": c.kind, "place": c.place, "gen": [0, 0], "text": c.text.trim(), "skipped": format!("{} is gone on this tree", c.place)}));
     }
     rules.sort();
     rules.dedup();
@@ -1652,7 +1679,9 @@ fn run(auto_consts: &Vec<(String, String)>) -> R<Vec<(String, String)>> {
                                     let kind0 = it.next().ok_or(Fail(format!("bad closure clause at line {}", i + 1)))?;
                                     let after = rest.trim_start();
                                     let after = after[after.find(kind0).unwrap() + kind0.len()..].to_string();
-                                    if kind0 == "head" {
+                                    if kind0 == "optional" {
+                                        f.closure_optional.push(k);
+                                    } else if kind0 == "head" {
                                         f.closure_heads.insert(k, after.trim().to_string());
                                         cur = Cur::ClosureHead(k);
                                     } else {
